@@ -96,6 +96,33 @@ theorem cout_mem (h n : Nat) (o : Out) (ho : o ∈ G.cout h n) : (h, o) ∈ G.ou
     rw [← hs.2] at ho; simp at ho
   | crash => exact absurd ha (G.nocrash n).1
 
+/-- and conversely -/
+theorem out_mem (h n : Nat) (o : Out) (ho : (h, o) ∈ G.out n) : o ∈ G.cout h n := by
+  have hs := G.cstep h n
+  have hg := G.step n
+  cases ha : G.act n with
+  | comp k a =>
+    rw [ha] at hg
+    simp only [gstep] at hg
+    cases hst : sstep c .current ((G.st n).comps k) a with
+    | none => rw [hst] at hg; simp at hg
+    | some p =>
+      obtain ⟨s', outs⟩ := p
+      rw [hst] at hg
+      simp only [Option.some.injEq, Prod.mk.injEq] at hg
+      rw [← hg.2] at ho
+      obtain ⟨o', ho', heq⟩ := List.mem_map.mp ho
+      simp only [Prod.mk.injEq] at heq
+      obtain ⟨rfl, rfl⟩ := heq
+      have hc : G.cact k n = a := G.cact_comp k n a ha
+      rw [hc, hst] at hs
+      simp only [Option.some.injEq, Prod.mk.injEq] at hs
+      rw [← hs.2]; exact ho'
+  | tickMono dt => rw [ha] at hg; simp [gstep, sharedStep] at hg; rw [hg.2] at ho; simp at ho
+  | tickWall dt => rw [ha] at hg; simp [gstep, sharedStep] at hg; rw [hg.2] at ho; simp at ho
+  | block b => rw [ha] at hg; simp [gstep, sharedStep] at hg; rw [hg.2] at ho; simp at ho
+  | crash => exact absurd ha (G.nocrash n).1
+
 /-- the projection on hash `h` is a fair run of component `h` -/
 def proj (h : Nat) : FairRun c where
   st := fun n => (G.st n).comps h
@@ -161,6 +188,14 @@ theorem c14_fair_run_answers (h n : Nat) (e : PEntry) (o : Owner)
   obtain ⟨m, r, hm, ho⟩ := (G.proj h).c06_fair_run_answers n e o hact i hi
   exact ⟨m, r, hm, G.cout_mem h m _ ho⟩
 
+/-- … and at exactly one step of the whole run. -/
+theorem c14_fair_run_exactly_once (h n : Nat) (e : PEntry) (o : Owner)
+    (hact : ((G.st n).comps h).active = some (e, o)) (i : Inv) (hi : i ∈ e.listeners) :
+    ∃ m r, n ≤ m ∧ (h, Out.resp i r) ∈ G.out m ∧
+      ∀ m' i' r', i'.id = i.id → (h, Out.resp i' r') ∈ G.out m' → m' = m := by
+  obtain ⟨m, r, hm, ho, huniq⟩ := (G.proj h).c06_fair_run_exactly_once n e o hact i hi
+  exact ⟨m, r, hm, G.cout_mem h m _ ho, fun m' i' r' hid ho' => huniq m' i' r' hid (G.out_mem h m' _ ho')⟩
+
 end GFairRun
 
 /-! ### the hypotheses are consistent: the run of the whole plugin in which only time passes
@@ -196,5 +231,160 @@ def idleRun : GFairRun demoCfg where
   fairPart := by intro h n id p hf; simp [idleAt, SState.init, findPart] at hf
   fairPay := by intro h n hr; simp [idleAt, SState.init] at hr
   time := by intro h n d; exact ⟨n + d, by omega, by simp [idleAt]⟩
+
+/-! ### a fair run of the whole plugin in which an HTLC is held and answered
+
+Hash 1 runs `fairDemo` (arrival of an incomplete set, fetch, a minute passes, timeout, failed back)
+while every other hash stays untouched; the ticks are the plugin-wide ones. -/
+
+def demoOtherMono (n : Nat) : Nat := if n ≤ 3 then 0 else if n = 4 then 60 else 60 + (n - 5)
+
+def demoG (n : Nat) : GState := { comps := fun k => if k = 1 then fairDemoSt n else { SState.init with mono := demoOtherMono n } }
+
+def demoGAct : Nat → GAct
+  | 0 => .comp 1 (fairDemoAct 0)
+  | 1 => .comp 1 (fairDemoAct 1)
+  | 2 => .comp 1 (fairDemoAct 2)
+  | 3 => .tickMono 60
+  | 4 => .comp 1 (fairDemoAct 4)
+  | _ => .tickMono 1
+
+def demoGOut (n : Nat) : List (Nat × Out) := (fairDemoOut n).map (fun o => (1, o))
+
+theorem demoOtherMono_tail (k : Nat) : demoOtherMono (5 + k) = 60 + k := by
+  unfold demoOtherMono; rw [if_neg (by omega), if_neg (by omega)]; omega
+
+theorem demoGAct_tail (k : Nat) : demoGAct (5 + k) = .tickMono 1 := by
+  have : 5 + k = k + 5 := by omega
+  rw [this]; rfl
+
+theorem fairDemoAct_tail (k : Nat) : fairDemoAct (5 + k) = .tickMono 1 := by
+  have : 5 + k = k + 5 := by omega
+  rw [this]; rfl
+
+theorem gstate_ext {a b : GState} (h : ∀ k, a.comps k = b.comps k) : a = b := by
+  cases a; cases b; simp only [GState.mk.injEq]; funext k; exact h k
+
+/-- a step of hash 1 alone -/
+theorem demoG_comp_step (n : Nat) (a : SAct) (ha : fairDemoAct n = a) (hm : demoOtherMono (n + 1) = demoOtherMono n) :
+    gstep demoCfg .current (demoG n) (.comp 1 a) = some (demoG (n + 1), demoGOut n) := by
+  have hs := fairDemo_step n
+  rw [ha] at hs
+  have h1 : (demoG n).comps 1 = fairDemoSt n := by simp [demoG]
+  simp only [gstep, h1, hs, demoGOut]
+  congr 1
+  congr 1
+  apply gstate_ext
+  intro k
+  by_cases hk : k = 1
+  · subst hk; simp [setComp, demoG]
+  · simp [setComp, demoG, hk, hm]
+
+/-- a plugin-wide tick -/
+theorem demoG_tick_step (n dt : Nat) (ha : fairDemoAct n = .tickMono dt) (hm : demoOtherMono (n + 1) = demoOtherMono n + dt) :
+    gstep demoCfg .current (demoG n) (.tickMono dt) = some (demoG (n + 1), demoGOut n) := by
+  have hs := fairDemo_step n
+  rw [ha] at hs
+  simp only [sstep, Option.some.injEq, Prod.mk.injEq] at hs
+  simp only [gstep, sharedStep, demoGOut, ← hs.2, List.map_nil]
+  congr 1
+  congr 1
+  apply gstate_ext
+  intro k
+  by_cases hk : k = 1
+  · subst hk; simp only [demoG, if_true]; exact hs.1
+  · simp [demoG, hk, hm]
+
+theorem demoG_step (n : Nat) : gstep demoCfg .current (demoG n) (demoGAct n) = some (demoG (n + 1), demoGOut n) := by
+  by_cases h : 5 ≤ n
+  · obtain ⟨k, rfl⟩ := Nat.exists_eq_add_of_le h
+    rw [demoGAct_tail]
+    exact demoG_tick_step (5 + k) 1 (fairDemoAct_tail k)
+      (by rw [show 5 + k + 1 = 5 + (k + 1) by omega, demoOtherMono_tail, demoOtherMono_tail]; omega)
+  · have : n = 0 ∨ n = 1 ∨ n = 2 ∨ n = 3 ∨ n = 4 := by omega
+    rcases this with rfl | rfl | rfl | rfl | rfl
+    · exact demoG_comp_step 0 _ rfl (by decide)
+    · exact demoG_comp_step 1 _ rfl (by decide)
+    · exact demoG_comp_step 2 _ rfl (by decide)
+    · exact demoG_tick_step 3 60 rfl (by decide)
+    · exact demoG_comp_step 4 _ rfl (by decide)
+
+theorem demoG_other (n k : Nat) (hk : k ≠ 1) : (demoG n).comps k = { SState.init with mono := demoOtherMono n } := by
+  simp [demoG, hk]
+
+theorem demoG_one (n : Nat) : (demoG n).comps 1 = fairDemoSt n := by simp [demoG]
+
+def demoGRun : GFairRun demoCfg where
+  st := demoG
+  act := demoGAct
+  out := demoGOut
+  step := demoG_step
+  reach0 := ⟨[], [], by intro a ha; simp at ha, by
+    show some (ginit, []) = some (demoG 0, [])
+    congr 1; congr 1
+    apply gstate_ext; intro k
+    by_cases hk : k = 1
+    · subst hk; rfl
+    · show SState.init = (demoG 0).comps k
+      rw [demoG_other 0 k hk]; rfl⟩
+  faults := by
+    intro n
+    by_cases h : 5 ≤ n
+    · obtain ⟨k, rfl⟩ := Nat.exists_eq_add_of_le h; rw [demoGAct_tail]; trivial
+    · have : n = 0 ∨ n = 1 ∨ n = 2 ∨ n = 3 ∨ n = 4 := by omega
+      rcases this with rfl | rfl | rfl | rfl | rfl <;> trivial
+  nocrash := by
+    intro n
+    by_cases h : 5 ≤ n
+    · obtain ⟨k, rfl⟩ := Nat.exists_eq_add_of_le h; rw [demoGAct_tail]; exact ⟨(fun hh => by cases hh), (fun h hh => by cases hh)⟩
+    · have : n = 0 ∨ n = 1 ∨ n = 2 ∨ n = 3 ∨ n = 4 := by omega
+      rcases this with rfl | rfl | rfl | rfl | rfl <;>
+        exact ⟨(fun hh => by first | cases hh | simp [demoGAct, fairDemoAct] at hh), (fun h hh => by first | cases hh | simp [demoGAct, fairDemoAct] at hh)⟩
+  fairOwner := by
+    intro h n a ha hen
+    exfalso
+    have h0 := hen (5 + n) (by omega)
+    have hidle : ((demoG (5 + n)).comps h).active = none := by
+      by_cases hk : h = 1
+      · subst hk; rw [demoG_one]; exact (fairDemo_tail n).1
+      · rw [demoG_other _ _ hk]; rfl
+    cases hs : sstep demoCfg .current ((demoG (5 + n)).comps h) a with
+    | none => rw [hs] at h0; simp at h0
+    | some p =>
+      obtain ⟨e, o, hact⟩ := ownerStep_active (s' := p.1) (outs := p.2) ha hs
+      rw [hidle] at hact; simp at hact
+  fairServe := by
+    intro h n q hen
+    exfalso
+    have h0 := hen (5 + n) (by omega)
+    have hidle : ((demoG (5 + n)).comps h).active = none := by
+      by_cases hk : h = 1
+      · subst hk; rw [demoG_one]; exact (fairDemo_tail n).1
+      · rw [demoG_other _ _ hk]; rfl
+    simp only [sstep] at h0
+    split at h0
+    · simp at h0
+    · cases hn : nodeServe ((demoG (5 + n)).comps h) q <;> simp [stepServeOwner, hidle, hn] at h0
+  fairPart := by
+    intro h n id p hf
+    by_cases hk : h = 1
+    · subst hk; rw [demoG_one, (fairDemo_node n).1] at hf; simp [findPart] at hf
+    · rw [demoG_other _ _ hk] at hf; simp [SState.init, findPart] at hf
+  fairPay := by
+    intro h n hr
+    by_cases hk : h = 1
+    · subst hk; rw [demoG_one, (fairDemo_node n).2] at hr; simp at hr
+    · rw [demoG_other _ _ hk] at hr; simp [SState.init] at hr
+  time := by
+    intro h n d
+    refine ⟨5 + (n + d), by omega, ?_⟩
+    by_cases hk : h = 1
+    · subst hk; rw [demoG_one, (fairDemo_tail (n + d)).2.2.2]; omega
+    · rw [demoG_other _ _ hk]; show d ≤ demoOtherMono (5 + (n + d)); rw [demoOtherMono_tail]; omega
+
+/-- the HTLC of hash 1 held after step 0 is answered, at exactly one step (step 4) -/
+example : ∃ m r, 1 ≤ m ∧ (1, Out.resp ⟨0, 500000, 1400⟩ r) ∈ demoGRun.out m ∧
+    ∀ m' i' r', i'.id = 0 → (1, Out.resp i' r') ∈ demoGRun.out m' → m' = m :=
+  demoGRun.c14_fair_run_exactly_once 1 1 _ _ (by show (fairDemoSt 1).active = some _; rfl) ⟨0, 500000, 1400⟩ (by decide)
 
 end Tramp
